@@ -49,6 +49,21 @@ theorem det_zero_outside {c : ChanState} {t : Int}
     (hout : ∀ i s p, IsPulseSlot c i s p → ¬ (s.ti ≤ t ∧ t < s.tf)) : detAt c t = [] :=
   contribAt_none fun a ha => hout a.idx a.s a.p (mem_pulseSlots.mp ha)
 
+/-- **Idling in EOM mode**: what the scheduler appends while a channel idles in EOM mode with a
+non-zero off-detuning (`mkDetunedDelay`, used by `add_delay` and by the EOM buffers) is a
+pulse instruction — so `det_unique` / `amp_unique` apply to it — whose waveforms are the
+constants amplitude 0 and detuning `detuning_off`; it is a detuned delay, whose phase the
+sampler does not paint.  (That idle time in EOM mode *is* such an instruction is C15.) -/
+theorem eom_idle_pulse {c : ChanState} {d : Nat} {detOff ph : Rat} {p : PulseRec}
+    (h : mkDetunedDelay c d detOff ph = .ok p) :
+    p.const = true ∧ p.amp = 0 ∧ p.det = detOff ∧ p.dd = true ∧ p.dur = d ∧ p.ref = 0 := by
+  unfold mkDetunedDelay at h
+  cases hl : c.lookupDD detOff d with
+  | none => rw [hl] at h; cases h
+  | some v =>
+    rw [hl] at h; obtain ⟨a, b⟩ := v; injection h with h; subst h
+    exact ⟨rfl, rfl, rfl, rfl, rfl, rfl⟩
+
 /-- The same as values: for any samples `σ slot index`, the rendered amplitude is the pulse's
 own sample inside a pulse and `0` outside every pulse. -/
 theorem amp_value {ms : Option Nat} {c : ChanState} (h : ChanInv ms c) (σ : Nat → Int → Rat) (t : Int) :
@@ -308,6 +323,9 @@ example : ∀ i s p, IsPulseSlot exG i s p → ¬ (s.ti ≤ 200 ∧ (200 : Int) 
   have hm := hs.mem
   have : ∀ x ∈ exG.pulseSlots, ¬ (x.s.ti ≤ 200 ∧ (200 : Int) < x.s.tf) := by decide +kernel
   exact this _ hm
+/-- eom_idle_pulse: with the fall times in the oracle table the idle pulse is made. -/
+example : (mkDetunedDelay { exG with ddOracle := [((-5, 48), (10, 4))] } 48 (-5) 0).toOption.map
+    (fun p => (p.const, p.amp, p.det, p.dd)) = some (true, 0, -5, true) := by decide +kernel
 /-- phase_zero_without_pulse on a freshly declared channel. -/
 example : phaseAt ((run (SeqState.init exDev 3) [.declare (.user 0) 0 none]).chans[0]!) true 0 = none := by
   decide +kernel
